@@ -376,7 +376,10 @@ E:
 	Errorf(logFormatDisconnected,
 		c.input.Mtype(), c.IP(), c.input.ServiceMethod(), c.input.Seq(),
 		messageLogBytes(c.input, c.sess.peer.printDetail))
-	go c.sess.Close()
+	// not the graceful Close: it waits for the replies to this side's pending
+	// calls, which a peer that breaks the protocol may never send. Closing the
+	// connection makes the read loop end the session and fail those calls
+	c.sess.getConn().Close()
 }
 
 func (c *handlerCtx) bindPush(header Header) interface{} {
